@@ -35,6 +35,17 @@ PROPS = {
         # the model is proved (Thm/C08.lean) to be exact-or-error on these requests
         "k_is_violation": lambda req: bool(re.match(r"OP (add|sub|mul|divint|mod|neg|abs|pow) I-?\d+( I-?\d+)?$", req)) or bool(re.match(r"OP (toi16|cint) [SD]", req)),
     },
+    "C07": {
+        "level_text": "Lean theorems for all strings (List Char) and all Integer arguments: LEFT$/RIGHT$/MID$ equal take/drop of the documented positions or OVERFLOW, the substring search equals the least-offset search, LEN/ASC/SPC/STRING$/concatenation/comparison as documented, failures are BASIC error codes (no fault). Character-level behaviour of the UTF-8 byte-slicing Rust code is tied to the model by a full grid of 1-4 byte characters x positions {-32768..32767 boundary set} and the Spec functions are evaluated against the implementation (finder).",
+        "level_note": "Partial: theorems are stated for Integer-typed position/length arguments (float arguments go through the proved floor conversion of C08); STR$/VAL/HEX$/OCT$ and the 255-character store limit are covered by correspondence only (store limit is proved under C06). Trusted: Lean kernel, Model/Std.lean reading of char_indices/str::find/str ordering, harness.",
+        "technique": "Lean 4 proof over List Char + differential correspondence on a multi-byte grid + list-spec finder",
+        "layers": ["ops-str"],
+        "trusted_base": TB_COMMON + ["Rust str::find / char_indices / Ord for str as documented (first match, char boundaries, byte-lexicographic = code-point order)"],
+        "assumptions": [ASSUME_STD, "strings in the model are lists of Unicode scalar values; the Rust code's byte offsets all come from char_indices (checked by the multi-byte grid)"],
+        "partial": "float-typed arguments, STR$/VAL/HEX$/OCT$: correspondence only",
+        "rule": "ops-str: 23 strings (ASCII, 2/3/4-byte, mixed, empty, 254-256 long) x 17 positions x 17 lengths for LEFT$/RIGHT$/MID$/STRING$, all pairs of 17 short strings x 12 starts for INSTR, concatenation/comparison of all pairs, CHR$/ASC around the scalar-value gaps, 48 numeric spellings for VAL, plus random strings; distinct_nontrivial = distinct request lines",
+        "k_is_violation": lambda req: bool(re.match(r"OP (left|right|mid|instr|len|asc|chr|string|spc|add|lt|le|gt|ge|eq|ne) ", req)),
+    },
 }
 
 
